@@ -197,6 +197,8 @@ def generate(rng, tier, i):
                 pf = rc.PF_FD_TP_CM
             react.append({'on_tx': rng.randrange(0, 8), 'id': rc.make_id(7, 0, pf, 255 if kind == 'bam' else sa, peer), 'd': _hex(data)})
     scn['react'] = react
+    # without the 10 ms probe timer nothing but the stack's own wake-ups gets the job thread out of its sleep
+    scn['probe_timer'] = rng.random() < 0.6
     return scn
 
 
@@ -212,7 +214,9 @@ def execute(scn, keep_log=False, hook=None):
              'followup_ok': 0, 'hostile_deliveries': 0, 'stack_tx_frames': 0}
     t0 = sim.now
     fires = []
-    st.ecu.add_timer(PROBE_PERIOD, lambda cookie: (fires.append(sim.now), True)[1])
+    probe = scn.get('probe_timer', True)
+    if probe:
+        st.ecu.add_timer(PROBE_PERIOD, lambda cookie: (fires.append(sim.now), True)[1])
     sim.run_for(0.05)
     feeder = bus.port('X')          # hostile source: frames are injected on the bus from here
     txn = [0]
@@ -299,7 +303,7 @@ def execute(scn, keep_log=False, hook=None):
         if prev is not None and x - prev > worst:
             worst = x - prev
         prev = x
-    if not tv and (not fires or worst > allowance or sim.now - fires[-1] > allowance):
+    if probe and not tv and (not fires or worst > allowance or sim.now - fires[-1] > allowance):
         viol.append({'clause': 'timer-cadence', 'rank': 4,
                      'msg': '10 ms probe timer: worst gap %.3f ms, last firing %.3f ms before the end (allowed %.3f ms)' % (
                          worst / 1e6, (sim.now - (fires[-1] if fires else t0)) / 1e6, allowance / 1e6)})
